@@ -475,6 +475,31 @@ func runSession(s *Session, quiet time.Duration, seed int64) ([]obs.Event, bool)
 	if s.Kind == "isolation" || s.Kind == "capacity" {
 		text = isoText()
 	}
+	// construction attempts with valid and invalid parameters (management sessions)
+	if s.Kind == "manage" {
+		for _, t := range [][4]int64{{0, 2, 1, 1}, {2, 2, 1, 1}, {3, 2, 1, 1}, {-1, 2, 1, 1}, {1, 2, 0, 1}, {1, 2, 5, 1}, {1, 2, 2, 0}, {1, 2, 3, 2},
+			{1, 3, 4, 1}, {2, 3, 1, 1}} {
+			txt := text
+			if t[3] == 0 {
+				txt = ""
+			} else if t[3] == 2 {
+				txt = "rule \"x\" begin a = = 1 end"
+			}
+			var np *engine.GenginePool
+			var perr error
+			var pv interface{}
+			func() {
+				defer func() {
+					if x := recover(); x != nil {
+						pv = x
+					}
+				}()
+				np, perr = engine.NewGenginePool(t[0], t[1], int(t[2]), txt, d.api())
+			}()
+			o.Emit(obs.Event{"ev": "pnew_try", "min": t[0], "max": t[1], "model": t[2], "textok": t[3] == 1,
+				"ok": perr == nil && np != nil && pv == nil, "panic": pv != nil})
+		}
+	}
 	p, err := engine.NewGenginePool(s.Min, s.Max, s.Model, text, d.api())
 	if err != nil {
 		fmt.Fprintf(os.Stderr, "driver: session %d: pool construction failed: %v\n", s.ID, err)
